@@ -18,6 +18,20 @@ from mpservice.threading import Thread
 logger = logging.getLogger(__name__)
 
 
+def _remote_exception(x: BaseException) -> RemoteException:
+    # `x` is an exception object that travels through the pipeline as a value.
+    # If it has never been raised (the user passed it as input, or `call` or `preprocess`
+    # returned it), it carries no traceback, which `RemoteException` insists on.
+    try:
+        return RemoteException(x)
+    except ValueError:
+        return RemoteException(
+            x,
+            tb=f'[{multiprocessing.current_process().name}] {x!r} '
+            '(this exception object was passed as a value; it has no traceback)\n',
+        )
+
+
 class _SimpleProcessQueue(multiprocessing.queues.SimpleQueue):
     """
     A customization of `multiprocessing.queue._SimpleThreadQueue <https://docs.python.org/3/library/multiprocessing.html#multiprocessing._SimpleThreadQueue>`_,
@@ -446,7 +460,7 @@ class Worker:
                 if isinstance(
                     x, Exception
                 ):  # `RemteException` is not a subclass of `Exception`.
-                    x = RemoteException(x)
+                    x = _remote_exception(x)
                 if isinstance(x, RemoteException):
                     q_out.put((uid, x))
                     continue
@@ -461,7 +475,7 @@ class Worker:
         batched = self.batch_size > 0
         for y in self.stream(get_input(q_in, q_out, q_uid)):
             if isinstance(y, Exception):
-                y = RemoteException(y)
+                y = _remote_exception(y)
                 # There are opportunities to print traceback
                 # and details later. Be brief on the logging here.
             else:
@@ -518,7 +532,7 @@ class Worker:
 
                 uids = q_uids.get()
                 if isinstance(yy, Exception):
-                    err = RemoteException(yy)
+                    err = _remote_exception(yy)
                     for u in uids:
                         q_out.put((u, err))
                 else:
@@ -588,7 +602,7 @@ class Worker:
                                     x = e
 
                         if isinstance(x, Exception):
-                            q_out.put((uid, RemoteException(x)))
+                            q_out.put((uid, _remote_exception(x)))
                         elif isinstance(x, RemoteException):
                             q_out.put((uid, x))
                         else:
